@@ -87,24 +87,29 @@ TileLabel(q, c) ==
 ChunkLabel(q, c) == ((q.a * c) % NCells) \div (IF NCells \div q.n >= 1 THEN NCells \div q.n ELSE 1)
 HashLabel(q, c) == H(q.seed, c) % q.n
 Abs(x) == IF x < 0 THEN 0 - x ELSE x
-Dist(c, e) == Abs(CI(c) - CI(e)) + Per * Abs(CJ(c) - CJ(e)) + Per * Abs(CK(c) - CK(e))
 Centre(q, m) == H(q.seed + 17, m) % NCells
-VoronoiLabel(q, c) ==
-  LET dmin == CHOOSE d \in {Dist(c, Centre(q, m)) : m \in 0..(q.n - 1)} : \A m \in 0..(q.n - 1) : d <= Dist(c, Centre(q, m))
-  IN CHOOSE m \in 0..(q.n - 1) : Dist(c, Centre(q, m)) = dmin /\ \A l \in 0..(m - 1) : Dist(c, Centre(q, l)) # dmin
+\* nearest centre: the minimum of the keys  distance * 1024 + centre number  (n <= 1024), so ties go to the smaller number
+VoronoiLabels(q) ==
+  LET cen == [m \in 0..(q.n - 1) |-> LET e == Centre(q, m) IN <<CI(e), CJ(e), CK(e)>>]
+      D(x, y, z, m) == Abs(x - cen[m][1]) + Per * (Abs(y - cen[m][2]) + Abs(z - cen[m][3]))
+      Key(c) == LET x == CI(c)  y == CJ(c)  z == CK(c)
+                    S == {D(x, y, z, m) * 1024 + m : m \in 0..(q.n - 1)}
+                IN CHOOSE k \in S : \A l \in S : k <= l
+  IN [c \in Cells |-> Key(c) % 1024]
 MixedLabel(q, c) ==
   LET b == BlockLabel((CI(c) + CJ(c)) % WX, CJ(c), CK(c), q.bx, q.by, 1)
       nb == CeilDiv(WX, q.bx) * CeilDiv(NY, q.by) * NZ
   IN IF H(q.seed, c) % q.n = 0 THEN (b + 1) % nb ELSE b
 
-Label(q, c) ==
-  CASE q.g = "shear" -> ShearLabel(q, c) [] q.g = "stair" -> StairLabel(q, c) [] q.g = "tile" -> TileLabel(q, c)
-    [] q.g = "chunk" -> ChunkLabel(q, c) [] q.g = "hash" -> HashLabel(q, c) [] q.g = "voronoi" -> VoronoiLabel(q, c)
-    [] q.g = "mixed" -> MixedLabel(q, c)
+Labels(q) ==
+  CASE q.g = "shear" -> [c \in Cells |-> ShearLabel(q, c)] [] q.g = "stair" -> [c \in Cells |-> StairLabel(q, c)]
+    [] q.g = "tile" -> [c \in Cells |-> TileLabel(q, c)] [] q.g = "chunk" -> [c \in Cells |-> ChunkLabel(q, c)]
+    [] q.g = "hash" -> [c \in Cells |-> HashLabel(q, c)] [] q.g = "voronoi" -> VoronoiLabels(q)
+    [] q.g = "mixed" -> [c \in Cells |-> MixedLabel(q, c)]
 
 \* ---- from labels to ranks --------------------------------------------------------------------------------------------
 Assignment(q) ==
-  LET lab    == [c \in Cells |-> Label(q, c)]
+  LET lab    == Labels(q)
       used   == {lab[c] : c \in Cells}
       rol    == [l \in used |-> Cardinality({u \in used : u < l})]
       rankof == [c \in Cells |-> rol[lab[c]]]
